@@ -85,8 +85,8 @@ def render_step(step, hp, rng, tag):
 
 def vstr(v):
     """variant: False/None = the code as it is; otherwise a 7-flag string
-    (dupclose,bcap,capclose,capfail,bunop,bfold = committed repairs; capfirst = PROPOSED notes/C04-fix-4)"""
-    return v if isinstance(v, str) else "1111110"
+    (dupclose,bcap,capclose,capfail,bunop,bfold,capfirst: all committed repairs)"""
+    return v if isinstance(v, str) else "1111111"
 
 
 def step_case(step, v, t0):
@@ -440,7 +440,7 @@ def run_sequence(ctx, steps, seqid, strace=False, extra_fds=(), present=()):
     # False = the code as it is; the others = the proposed repairs (single flags, then all)
     # the code as it is, then the code with a PROPOSED repair applied (so that committing one is not an alarm);
     # a reverted committed repair matches none of them and is a violation
-    VARIANTS = [False, "1111111"]
+    VARIANTS = [False]
     variants = {False: model_run(False)}
     work = tempfile.mkdtemp(prefix="fds_")
     out = {"line": line, "findings": [], "bad": [], "accepted": [], "nontrivial": [], "variant": None}
@@ -648,7 +648,7 @@ def step_has_builtin_single(step):
 
 
 # ---------------------------------------------------------------- judging one sequence
-CLASS_OF = {"capdup": "capture-with-redirect"}
+CLASS_OF = {}
 
 
 def judge(out, prop, known):
@@ -741,6 +741,11 @@ def expected_files(out):
             from_bad = st["frm"].startswith("<") and int(st["frm"][1:]) in s["unop"]
             unsure = lone_builtin or bool([c for c in pos["cls"] if c != "oos"]) or "oos" in pos["cls"]
             nxt = s["stages"][i + 1] if i + 1 < n else None
+            if st["kind"] == "B" and s["capture"] and n > 1 and i == n - 1:
+                # finding captured-builtin-last-stage (C04/C11): a builtin that is the LAST stage of a captured pipeline of
+                # several stages runs in a child with capture on, puts its text into its own CommandResult and exits:
+                # the text reaches neither the capture pipe nor a redirection target
+                unsure = True
             if not pos["ok"]:
                 unsure = True              # the diagnostic goes to the stage's current (possibly redirected) stderr
             if nxt is not None and (nxt["kind"] != "E" or not m["posix"][i + 1]["ok"] or nxt["frm"] != "-"):
